@@ -20,7 +20,12 @@ import (
 func pointDetail(name string, obj interface{}) string {
 	switch o := obj.(type) {
 	case nil:
-		return sim.GoroutineTag() // lock points: the scenario's name for the calling goroutine
+		// lock points: the scenario's name for the calling goroutine, or the function a goroutine of the code
+		// under test was started in
+		if t := sim.GoroutineTag(); t != "" {
+			return t
+		}
+		return "~" + sim.GoroutineRoot()
 	case operation.Operation:
 		return string(o.GetValue())
 	case ipfslog.Entry:
@@ -42,6 +47,10 @@ func pointDetail(name string, obj interface{}) string {
 // through the points begin / afterAppend / afterPersist / afterIndex.
 type ConcWriters struct {
 	last    string // thread that made the last step
+	status  bool   // sample (progress, max) after every step; the status code's locks are points too
+	lastP   int
+	lastM   int
+	pending []explore.Violation
 	merge   int    // > 0: one more thread merges this many entries of a remote writer while the writers write
 	remote  *sim.Instance
 	locks   bool   // also park writers before every Lock/RLock of the store and index code (vsync shim)
@@ -112,7 +121,14 @@ func NewConcWritersLocks(kind string, n, per int, locks bool) (*ConcWriters, err
 // NewConcWritersMerge: with merge > 0 another thread hands the store the head of a remote writer's chain of
 // that many entries (Sync), so that a replication merge runs concurrently with the local writes.
 func NewConcWritersMerge(kind string, n, per int, locks bool, merge int) (*ConcWriters, error) {
-	w := &ConcWriters{merge: merge, locks: locks, kind: kind, net: sim.NewNet(), n: n, per: per, acked: map[string]string{}, errs: map[string]error{}}
+	return NewConcWritersStatus(kind, n, per, locks, merge, false)
+}
+
+// NewConcWritersStatus: with status, the locks of the replication-status code are schedule points as well and
+// (progress, max) is sampled after every step (C19).
+func NewConcWritersStatus(kind string, n, per int, locks bool, merge int, status bool) (*ConcWriters, error) {
+	sim.TagGoroutine("driver") // the explorer's own reads of the store never park
+	w := &ConcWriters{status: status, merge: merge, locks: locks, kind: kind, net: sim.NewNet(), n: n, per: per, acked: map[string]string{}, errs: map[string]error{}}
 	w.peer = w.net.AddPeer("W")
 	inst, err := w.peer.Start(nil)
 	if err != nil {
@@ -159,8 +175,14 @@ func NewConcWritersMerge(kind string, n, per int, locks bool, merge int) (*ConcW
 	}
 	sim.UsePointGates(w.net.Gates, pointDetail)
 	w.net.Gates.Enable(func(kind, peer, key, caller string) bool {
-		if kind != "point" {
+		if kind != "point" || key == "driver" {
 			return false
+		}
+		if status && (peer == "lock" || peer == "rlock") && (strings.HasPrefix(caller, "replicator.(*replicationInfo)") || strings.HasPrefix(caller, "basestore.(*BaseStore).recalculate")) {
+			return true
+		}
+		if (status || (locks && merge > 0)) && strings.HasPrefix(peer, "replemit.") {
+			return true // the replicator's emissions come from several goroutines: their order is the explorer's choice
 		}
 		if strings.HasPrefix(peer, "write.") || strings.HasPrefix(peer, "index.") {
 			return true
@@ -245,11 +267,30 @@ func (w *ConcWriters) Do(a string) error {
 	if err := w.net.Gates.Release(a, sim.AnswerOK); err != nil {
 		return err
 	}
-	return sim.Quiesce()
+	if err := sim.Quiesce(); err != nil {
+		return err
+	}
+	if w.status {
+		st := w.store.ReplicationStatus()
+		p, m := st.GetProgress(), st.GetMax()
+		if p < w.lastP || m < w.lastM {
+			w.pending = append(w.pending, explore.Violation{Signature: "replication-status-decreased-under-concurrency",
+				Detail: fmt.Sprintf("after releasing %s: (progress,max) went from (%d,%d) to (%d,%d)", a, w.lastP, w.lastM, p, m)})
+		}
+		w.lastP, w.lastM = p, m
+		if explore.ReplayOnly != nil {
+			fmt.Printf("    status: progress=%d max=%d entries=%d\n", p, m, w.store.OpLog().Len())
+		}
+	}
+	return nil
 }
 
-func (w *ConcWriters) Key() string                             { return "" }
-func (w *ConcWriters) Check(hist []string) []explore.Violation { return nil }
+func (w *ConcWriters) Key() string { return "" }
+func (w *ConcWriters) Check(hist []string) []explore.Violation {
+	out := w.pending
+	w.pending = nil
+	return out
+}
 
 func listPayloads(s iface.EventLogStore) (map[string]int, error) {
 	ops, err := s.List(bg, &iface.StreamOptions{Amount: intp(-1)})
